@@ -188,8 +188,20 @@ def do_replay(prop, path, flavour, repo):
     b = buildmod.build(repo, flavour)
     opts = machine.tier_opts("quick")
     opts["keep_events"] = True
-    res = run_child_maybe_asan(machine, b["lib"], {"case": doc["case"], "perturb": doc.get("perturb", 0xA5)}, opts, flavour)
     want = doc["violation"]
+    hist = (want.get("detail") or {}).get("history_indices") if isinstance(want.get("detail"), dict) else None
+    if hist:
+        # a violation that needs the calls that preceded it in the process: the runs are regenerated from their indices
+        # and executed in order in one fresh process (replay = function of the seed, the indices and the code)
+        res2, _ = core.run_batch(machine, b["lib"], hist, want["detail"]["history_verif_seed"], prop, machine.tier_opts(want["detail"].get("tier", "quick")), workers=1)
+        r2 = res2.get(hist[-1])
+        if r2 is not None and r2.get("kind") == "violation":
+            print("reproduced: %s/%s (in context: %s/%s)" % (want["oracle"], want["class"], r2["violation"]["oracle"], r2["violation"]["class"]))
+            print("VIOLATION property=%s replay=%s" % (prop, path))
+            return 1
+        print("not reproduced on this tree (got %s)" % (r2 and r2.get("kind"),))
+        return 0
+    res = run_child_maybe_asan(machine, b["lib"], {"case": doc["case"], "perturb": doc.get("perturb", 0xA5)}, opts, flavour)
     if isinstance(res, WorkerDeath):
         got = {"oracle": death_class(res.how)[0], "class": death_class(res.how)[1]}
     elif res.get("kind") == "violation":
@@ -645,6 +657,32 @@ def run_check(prop, tier, seed, repo, runs=None, skip_selftest=False, mutants=Fa
                                     "fresh process with 5x the time limit; no memory error before it - wall-clock time lost to "
                                     "machine load, not behaviour of the simulated run" % (i, what, len(hist)))
                     cov["anomalies"]["load_timeouts"] = cov["anomalies"].get("load_timeouts", 0) + 1
+            elif i is not None and what.startswith("violated "):
+                # the run violates the property in the batch, not alone, and nothing before it on its worker is a memory
+                # error: replay the worker's history in order in one fresh process. If the violation is there again it is
+                # behaviour (one seed is one execution) - state that the library keeps across calls - and it is reported
+                # with the shortest suffix of the history that still shows it.
+                hist = list(range(i % W, i + 1, W))[-opts.get("traceback_runs", 4000):]
+                res2, _ = core.run_batch(machine, lib, hist, seed, prop, dict(opts), workers=1)
+                r2 = res2.get(i)
+                if r2 is not None and r2.get("kind") == "violation":
+                    keep = hist
+                    n = 1
+                    while n < len(hist):
+                        sub = hist[-(n + 1):]
+                        res3, _ = core.run_batch(machine, lib, sub, seed, prop, dict(opts), workers=1)
+                        r3 = res3.get(i)
+                        if r3 is not None and r3.get("kind") == "violation":
+                            keep, r2 = sub, r3
+                            break
+                        n *= 2
+                    v = {"oracle": "determinism", "class": "outcome_depends_on_earlier_calls_in_the_process", "at": None,
+                         "detail": {"violation_in_context": r2["violation"], "alone": "no violation",
+                                    "history_indices": keep, "history_verif_seed": seed, "tier": tier}}
+                    reports.append((i, r2["case"], v, "plain", r2.get("perturb", 0xA5)))
+                    cov["anomalies"]["history_dependent"] = cov["anomalies"].get("history_dependent", 0) + 1
+                else:
+                    unexplained.append((i, what))
             else:
                 unexplained.append((i, what))
 
